@@ -23,7 +23,7 @@ PROPS = {
     "C04": dict(tests=[T("TestVerifC04Wheel", 20000, 300000), T("TestVerifC04Pipeline", 8000, 100000), F("FuzzVerifC04Wheel")]),
     "C05": dict(tests=[T("TestVerifC05Pipeline", 15000, 200000), T("TestVerifC05Pool", 8000, 100000),
                        T("TestVerifC05Conc", 40, 600, shrinktime="0s", gomaxprocs=[16, 4, 8, 16]),
-                       T("TestVerifC05Update", 300, 4000, shrinktime="0s"), F("FuzzVerifC05Pipeline")]),
+                       T("TestVerifC05Update", 300, 4000, shrinktime="0s"), T("TestVerifC05Hybrid", 1500, 20000), F("FuzzVerifC05Pipeline")]),
     "C06": dict(tests=[T("TestVerifC06Seq", 4000, 60000)]),
     "C07": dict(tests=[T("TestVerifC07", 30000, 400000), F("FuzzVerifC07")]),
     "C08": dict(tests=[T("TestVerifC08Buffer", 6000, 100000), T("TestVerifC08Store", 150, 1500, shrinktime="0s"),
